@@ -6,7 +6,28 @@ import os
 from . import common as C
 
 
+def table():
+    import io, contextlib
+    buf = io.StringIO()
+    with contextlib.redirect_stdout(buf):
+        rows()
+    return buf.getvalue()
+
+
 def main():
+    import sys
+    if "--write" in sys.argv:
+        p = os.path.join(C.VERIF, "DESIGN.md")
+        s = open(p).read()
+        a = s.index("### 0.2 Measured coverage of the quick tier")
+        b = s.index("The thorough tier widens every dimension")
+        head = ("### 0.2 Measured coverage of the quick tier (seed 1, 16 cores; generated from /verif/evidence by `python -m harness.covtable --write`)\n\n")
+        open(p, "w").write(s[:a] + head + table() + "\n" + s[b:])
+    else:
+        rows()
+
+
+def rows():
     print("| check | wall s | TLC runs | TLC distinct states (sum) | traces / cases bound to the implementation | distinct | known findings seen |")
     print("|---|---|---|---|---|---|---|")
     for f in sorted(glob.glob(os.path.join(C.VERIF, "evidence", "C*.json"))):
